@@ -23,13 +23,19 @@ def sh(cmd, cwd=None, timeout=1800):
     return p.returncode, p.stdout + p.stderr
 
 
-def demo_dest(d):
-    src = open(os.path.join(d, "demo_test.go")).read()
+def file_dest(path):
+    src = open(path).read()
     m = re.search(r"((?:[\w.-]+/)+[\w.-]+_test\.go)", "\n".join(src.splitlines()[:60]))
     if not m:
-        raise SystemExit("cannot find the demo's destination path in its header")
+        return None
     dest = m.group(1).lstrip("/")
-    dest = re.sub(r"^tmp/mut[0-9]*-[A-Za-z0-9]+/", "", dest)
+    return re.sub(r"^tmp/mut[0-9]*-[A-Za-z0-9]+/", "", dest)
+
+
+def demo_dest(d):
+    dest = file_dest(os.path.join(d, "demo_test.go"))
+    if not dest:
+        raise SystemExit("cannot find the demo's destination path in its header")
     return dest
 
 
@@ -46,9 +52,13 @@ def confirm(d):
         name = re.findall(r"func (Test\w+)\(", open(os.path.join(d, "demo_test.go")).read())
         runre = "^(" + "|".join(name) + ")$"
         shutil.copyfile(os.path.join(d, "demo_test.go"), os.path.join(wt, dest))
-        extras = [f for f in os.listdir(d) if f.endswith("_test.go") and f != "demo_test.go"]
-        for f in extras:  # shared demo helpers live next to the demo
-            shutil.copyfile(os.path.join(d, f), os.path.join(wt, os.path.dirname(dest), f))
+        extras = []
+        for f in os.listdir(d):  # further demo files / shared helpers, each with its own destination (default: next to the demo)
+            if f.endswith("_test.go") and f != "demo_test.go":
+                fd = file_dest(os.path.join(d, f)) or os.path.join(os.path.dirname(dest), f)
+                os.makedirs(os.path.join(wt, os.path.dirname(fd)), exist_ok=True)
+                shutil.copyfile(os.path.join(d, f), os.path.join(wt, fd))
+                extras.append(fd)
         rc, out = sh("go test -vet=off -count=1 -run '%s' %s" % (runre, pkg), cwd=wt)
         res["demo_passes_without_patch"] = rc == 0
         res["demo_without_tail"] = out[-400:]
@@ -60,8 +70,8 @@ def confirm(d):
         res["demo_fails_with_patch"] = rc != 0
         res["demo_with_tail"] = out[-600:]
         os.remove(os.path.join(wt, dest))
-        for f in extras:
-            os.remove(os.path.join(wt, os.path.dirname(dest), f))
+        for fd in extras:
+            os.remove(os.path.join(wt, fd))
         rc, out = sh("go test -vet=off -count=1 -timeout 25m ./...", cwd=wt)
         res["suite_passes_with_patch"] = rc == 0
         if rc:
